@@ -1029,20 +1029,27 @@ where
             lc
         })
         .collect();
+    // we sort by start_time but a resume lifecycle must be sorted after the lifecycle it resumes.
+    // Comparing this pair wise only (if a is a resume of b...) is not a total order and sort_by
+    // might return a wrong order or even panic. So we determine a sort key per lifecycle first:
+    sorted_lcs.sort_by_key(|lc| lc.id); // a resume lifecycle has a higher id than the one it resumes
+    let mut sort_keys =
+        std::collections::HashMap::<LifecycleId, u64>::with_capacity(sorted_lcs.len());
+    for lc in &sorted_lcs {
+        let mut sort_key = lc.start_time;
+        if let Some(resume_lc) = &lc.resume_lc {
+            if let Some(resumed_sort_key) = sort_keys.get(&resume_lc.id) {
+                if sort_key <= *resumed_sort_key {
+                    sort_key = resumed_sort_key.saturating_add(1);
+                }
+            }
+        }
+        sort_keys.insert(lc.id, sort_key);
+    }
     sorted_lcs.sort_by(|a, b| {
-        if let Some(b_resume_lc) = &b.resume_lc {
-            if b_resume_lc.id == a.id {
-                // b is a resume of a so a must be earlier
-                return std::cmp::Ordering::Less;
-            }
-        }
-        if let Some(a_resume_lc) = &a.resume_lc {
-            if a_resume_lc.id == b.id {
-                // a is a resume of b so b must be earlier
-                return std::cmp::Ordering::Greater;
-            }
-        }
-        a.start_time.cmp(&b.start_time)
+        sort_keys[&a.id]
+            .cmp(&sort_keys[&b.id])
+            .then(a.id.cmp(&b.id))
     });
     sorted_lcs
 }
